@@ -31,15 +31,16 @@ func init() {
 var errInjected = errors.New("injected reader failure")
 
 type schedReader struct {
-	data  []byte
-	ends  []int
-	frags []int
-	errAt int
-	cur   int
-	phase int // 0: fragment, 1: complete the line
-	fi    int
-	Calls int
-	mu    sync.Mutex
+	data        []byte
+	ends        []int
+	frags       []int
+	errAt       int
+	cur         int
+	eofWithData bool // the read that reaches the end returns its data together with io.EOF
+	phase       int  // 0: fragment, 1: complete the line
+	fi          int
+	Calls       int
+	mu          sync.Mutex
 }
 
 func (r *schedReader) nextLF(from int) int {
@@ -85,6 +86,9 @@ func (r *schedReader) Read(p []byte) (int, error) {
 	}
 	n := copy(p, r.data[r.cur:to])
 	r.cur += n
+	if r.eofWithData && r.cur >= len(r.data) && r.errAt > len(r.data) {
+		return n, io.EOF
+	}
 	return n, nil
 }
 
@@ -145,8 +149,8 @@ func docSerials(pj *simdjson.ParsedJson) ([]int, error) {
 }
 
 // runStream executes one behaviour.
-func runStream(data []byte, ends []int, frags []int, errAt int, finOrder []int, useReuse bool) (items []streamItem, closed bool, problem string) {
-	rd := &schedReader{data: data, ends: ends, frags: frags, errAt: errAt}
+func runStream(data []byte, ends []int, frags []int, errAt int, finOrder []int, useReuse bool, eofWithData bool) (items []streamItem, closed bool, problem string) {
+	rd := &schedReader{data: data, ends: ends, frags: frags, errAt: errAt, eofWithData: eofWithData}
 	res := make(chan simdjson.Stream, 1)
 	var reuse chan *simdjson.ParsedJson
 	if useReuse {
@@ -338,13 +342,19 @@ func gstream(args []string) error {
 		step = len(behs) / *maxB
 	}
 	base := runtime.NumGoroutine()
+	hangs := 0
 	for i := 0; i < len(behs); i += step {
 		b := behs[i]
-		got, closed, problem := runStream(data, ends, b.frags, b.errAt, b.fin, i%2 == 1)
+		if hangs >= 4 {
+			rep.Count("behaviours_skipped_after_4_hangs", 1)
+			continue
+		}
+		got, closed, problem := runStream(data, ends, b.frags, b.errAt, b.fin, i%2 == 1, i%3 == 2)
 		rep.Evaluations++
-		cfg := map[string]interface{}{"stream": fmt.Sprintf("%q", data), "reads_reach": b.frags, "reader_fails_at": b.errAt, "completion_order": b.fin, "reuse": i%2 == 1}
+		cfg := map[string]interface{}{"stream": fmt.Sprintf("%q", data), "reads_reach": b.frags, "reader_fails_at": b.errAt, "completion_order": b.fin, "reuse": i%2 == 1, "last_read_returns_data_and_eof": i%3 == 2}
 		sig := fmt.Sprintf("%q:%v:%d:%v", data, b.frags, b.errAt, b.fin)
 		if problem != "" {
+			hangs++
 			rep.Add(run.Mismatch{Property: *prop, Sig: "hang:" + sig, Cfg: cfg, Want: fmtItems(b.want) + " then close", Got: fmtItems(got) + " " + problem})
 			continue
 		}
